@@ -11,6 +11,7 @@ import (
 	"fmt"
 	"os"
 	"path/filepath"
+	"regexp"
 	"sort"
 	"strings"
 	"testing"
@@ -23,6 +24,7 @@ import (
 	"github.com/md14454/gosensors"
 	"github.com/prometheus/client_golang/prometheus"
 	"github.com/pterm/pterm"
+	"github.com/spf13/viper"
 )
 
 func init() {
@@ -237,8 +239,10 @@ type vxOutcome struct {
 	Detail string // anything else worth reporting (I/O mismatch, registry mismatch)
 }
 
+var vxPtr = regexp.MustCompile(`0x[0-9a-f]{6,}`)
+
 func (o vxOutcome) String() string {
-	return fmt.Sprintf("err=%q panic=%q bound=%+v %s", o.Err, o.Panic, o.Bound, o.Detail)
+	return vxPtr.ReplaceAllString(fmt.Sprintf("err=%q panic=%q bound=%+v %s", o.Err, o.Panic, o.Bound, o.Detail), "0x..")
 }
 
 func vxFanEntry(id string, chipPattern string, sel vxSel) configuration.FanConfig {
@@ -464,6 +468,53 @@ func (st *vxState) combo(c *vxCase) {
 	}
 }
 
+// ---------------------------------------------------------------- `fan2go sensor -i <id>` lookup (cmd/sensor/sensor.go getSensor)
+
+// cliSensor takes the sensor entry through a YAML file and the real getSensor (the lookup behind `fan2go sensor`),
+// which has its own copy of the matching loop. Oracle (weaker than for start-up: this path returns a sensor object and
+// the command then reads it): no panic; an existing device is bound exactly; a non-existing device never yields a
+// sensor that reads some other existing file.
+func (st *vxState) cliSensor(c *vxCase, exp vxBound) {
+	gosensors.VerifSetSpec(vxSpecs(c))
+	path := filepath.Join(vxBase, "fan2go.yaml")
+	y := fmt.Sprintf("sensors:\n  - id: %s\n    hwmon:\n      platform: %s\n      index: %d\n", vxSensorID, vxPattern(c.Sel.Pattern), c.Sel.N)
+	vxMust(os.WriteFile(path, []byte(y), 0644))
+	var s interface{ GetValue() (float64, error) }
+	var input, pmsg string
+	var err error
+	func() {
+		defer func() {
+			if r := recover(); r != nil {
+				pmsg = fmt.Sprintf("%v", r)
+			}
+		}()
+		viper.Reset()
+		configuration.InitConfig(path) // cmd/root.go cobra.OnInitialize
+		sens, e := getSensor(vxSensorID)
+		err = e
+		if e == nil && sens != nil {
+			s = sens
+			if hs, ok := sens.(*sensors.HwmonSensor); ok {
+				input = hs.Input
+			}
+		}
+	}()
+	cc := *c
+	cc.Sel.Kind = "cli-sensor"
+	switch {
+	case pmsg != "":
+		st.violate(&cc, "C17 `fan2go sensor` lookup panics", "getSensor panicked: "+pmsg)
+	case exp.OK && err != nil:
+		st.violate(&cc, "C17 `fan2go sensor` lookup does not find an existing device", "getSensor: "+err.Error())
+	case exp.OK && input != exp.Input:
+		st.violate(&cc, "C17 `fan2go sensor` lookup bound to a different device", fmt.Sprintf("bound input=%q expected %q", input, exp.Input))
+	case !exp.OK && err == nil && s != nil:
+		if _, serr := os.Stat(input); input != "" && serr == nil {
+			st.violate(&cc, "C17 `fan2go sensor` lookup silently bound a non-existing device", fmt.Sprintf("no such device, but the sensor reads %q", input))
+		}
+	}
+}
+
 // ---------------------------------------------------------------- enumeration
 
 func vxFanSets() [][]int {
@@ -607,6 +658,9 @@ func TestVX_C17(t *testing.T) {
 		rep.Evaluations++
 		if rc.Sel.Kind == "combo" {
 			st.combo(&rc)
+		} else if rc.Sel.Kind == "cli-sensor" {
+			rc.Sel.Kind = "sensor"
+			st.cliSensor(&rc, vxRefBind(rc.Shapes, rc.Sel))
 		} else {
 			st.check(&rc, vxRefBind(rc.Shapes, rc.Sel), vxRunReal(&rc))
 		}
@@ -638,6 +692,10 @@ func TestVX_C17(t *testing.T) {
 				o := vxRunReal(&c)
 				rep.Evaluations++
 				out := st.check(&c, exp, o)
+				if sel.Kind == "sensor" && (fam == "1chip" || fam == "2chips") {
+					st.cliSensor(&c, exp)
+					rep.Count("cli-sensor-lookups", 1)
+				}
 				if pi == 0 {
 					first = out
 				} else if out != first {
